@@ -32,5 +32,6 @@ Next == /\ st.ph = "shard"
              /\ PrintT(ToJson([ci |-> st.ci, crit |-> crit, col |-> col, sel |-> SetToSeq(sel),
                                sel12 |-> SetToSeq(Sel(<<col, CCol>>, <<crit, C2>>, R)),
                                g |-> [sp \in Spellings(crit) |-> StrSeq(Guards(col, crit, sp))],
-                               gsum |-> [sp \in Spellings(crit) |-> StrSeq(GuardsSum(col, crit, sp))]]))
+                               gsum |-> [sp \in Spellings(crit) |-> StrSeq(GuardsSum(col, crit, sp))],
+                               iv |-> [sp \in Spellings(crit) |-> [c |-> ImplVerdicts(col, crit, sp, TRUE), n |-> ImplVerdicts(col, crit, sp, FALSE)]]]))
 =============================================================================
